@@ -251,16 +251,21 @@ func c06SlotInSuppliedContent(r *Run) {
 	norm := func(s string) string { return strings.Join(strings.Fields(s), "") }
 	wantPage := norm(`<section><h2><b>Inbox</b></h2><div><p>page-fallback</p></div><footer><i>Untitled page</i></footer></section>`)
 	wantSite := norm(`<section><h2><b>inner</b></h2><div>no-body</div><footer><i><u>site-title</u></i></footer></section>`)
+	// slot props given as literals (booleans, numbers, strings) arrive like any other value
+	m["lit.vuego"] = &fstest.MapFile{Data: []byte(`<div v-for="x in two"><slot :open="true" :locked="false" :n="3" :s="'str'" :x="x">fb</slot></div><slot name="foot" :open="false" :on="true"></slot>`)}
+	m["litpage.vuego"] = &fstest.MapFile{Data: []byte(`<template include="lit.vuego"><template #default="{ open, locked, n, s, x }"><b v-if="open">open</b><b v-else>closed</b>[{{ open }}|{{ locked }}|{{ n }}|{{ s }}|{{ x }}]</template><template v-slot:foot="p"><i v-if="p.open">o</i><i v-else>c</i>{{ p.on }}</template></template>`)}
+	wantLit := norm(`<div><b>open</b>[true|false|3|str|1]</div><div><b>open</b>[true|false|3|str|2]</div><i>c</i>true`)
 	for _, c := range []struct{ name, entry, file, want string }{
+		{"literal-slot-props", "render", "litpage.vuego", wantLit}, {"literal-slot-props-load", "load", "litpage.vuego", wantLit},
 		{"top-level-file", "render", "page.vuego", wantPage}, {"top-level-load", "load", "page.vuego", wantPage}, {"top-level-string", "string", "page.vuego", wantPage},
 		{"forwarded-by-a-component", "render", "site.vuego", wantSite}, {"forwarded-by-a-component-load", "load", "site.vuego", wantSite},
 	} {
-		out, err := miniRenderEntry(m, c.entry, c.file, map[string]any{"heading": "Inbox"})
+		out, err := miniRenderEntry(m, c.entry, c.file, map[string]any{"heading": "Inbox", "two": []any{1, 2}, "open": "includer-value"})
 		r.Eval("slot-in-supplied-content:"+c.name, true, nil)
 		r.Count("stream:slot-in-supplied-content(oracle only)")
 		if got := norm(out); err != nil || got != norm(c.want) {
 			r.Fail("a slot inside supplied content is not filled by (only) what its own template was given", map[string]string{"oracle": "slot-in-supplied-content", "case": c.name},
-				map[string]any{"files": map[string]string{"panel.vuego": string(m["panel.vuego"].Data), c.file: string(m[c.file].Data), "wrap.vuego": string(m["wrap.vuego"].Data)}, "output": got, "expected": c.want, "err": fmt.Sprint(err)})
+				map[string]any{"files": map[string]string{"panel.vuego": string(m["panel.vuego"].Data), c.file: string(m[c.file].Data), "wrap.vuego": string(m["wrap.vuego"].Data), "lit.vuego": string(m["lit.vuego"].Data)}, "output": got, "expected": c.want, "err": fmt.Sprint(err)})
 		}
 	}
 }
